@@ -12,6 +12,21 @@ import time
 ROOT = os.path.dirname(os.path.dirname(os.path.abspath(__file__)))
 REPO = os.environ.get("VP_REPO", "/repo")
 NCPU = int(os.environ.get("VP_JOBS", str(os.cpu_count() or 4)))
+import tempfile  # noqa: E402
+
+SIDE_DIR = tempfile.mkdtemp(prefix="vpside.")
+import atexit  # noqa: E402
+import shutil  # noqa: E402
+
+atexit.register(lambda: shutil.rmtree(SIDE_DIR, ignore_errors=True))
+
+
+def side_inputs(pid):
+    try:
+        with open(os.path.join(SIDE_DIR, f"{pid}.json")) as f:
+            return json.load(f)
+    except (OSError, ValueError):
+        return None
 
 
 class Worker:
@@ -21,6 +36,7 @@ class Worker:
         env["PYTHONDONTWRITEBYTECODE"] = "1"
         env.setdefault("PYTHONHASHSEED", "0")
         env["VP_REPO"] = REPO
+        env["VP_SIDE_DIR"] = SIDE_DIR
         self.p = subprocess.Popen(
             [sys.executable, "-m", "vpkg.worker"], stdin=subprocess.PIPE, stdout=subprocess.PIPE,
             stderr=subprocess.DEVNULL if not os.environ.get("VP_DEBUG") else None,
@@ -70,7 +86,8 @@ def run_units(units, jobs=None, progress=None):
                 sel.unregister(w.p.stdout)
                 workers.remove(w)
                 if w.unit is not None:
-                    results[w.unit["id"]] = {"id": w.unit["id"], "status": "ERROR",
+                    results[w.unit["id"]] = {"id": w.unit["id"], "status": "ERROR", "died": True, "rc": w.p.poll(),
+                                             "last_open": side_inputs(w.p.pid),
                                              "message": "worker died (rc=%s)" % w.p.poll()}
                 w.kill()
                 if todo:
@@ -92,7 +109,7 @@ def run_units(units, jobs=None, progress=None):
         now = time.time()
         for w in list(workers):
             if w.unit is not None and now > w.deadline:
-                results[w.unit["id"]] = {"id": w.unit["id"], "status": "TIMEOUT",
+                results[w.unit["id"]] = {"id": w.unit["id"], "status": "TIMEOUT", "last_open": side_inputs(w.p.pid),
                                          "message": "hard wall-clock limit hit; worker killed"}
                 if progress:
                     progress(results[w.unit["id"]])
